@@ -233,7 +233,7 @@ func init() {
 			note := "random faults"
 			if i%3 == 0 {
 				// kills and deletions while the Pod cache is far behind the Job cache
-				o.Mode, o.DeepLag = "lag", true
+				o.Mode, o.DeepLag, o.LagKinds = "lag", true, []sim.Kind{sim.KPod}
 				prof.KillPct, prof.FutureKill, prof.DeletePct, prof.ForeignPct = 70, 30, 25, 0
 				note = "random faults, kill-heavy, deep cache lag"
 			}
